@@ -96,6 +96,24 @@ func excluded(fn string, args []string) string {
 		}
 	case "gi:run":
 		return "spawns OS processes"
+	case "gi:range":
+		if 2 <= len(args) && args[1] == "ch" {
+			return "iterates until the channel is closed, by contract (the pool channel stays open)"
+		}
+	case "net:socket-select":
+		if len(args) == 3 {
+			empty := true
+			for _, a := range args {
+				empty = empty && (a == "nil" || a == "el")
+			}
+			if empty {
+				return "waits on empty socket lists without a timeout, by contract forever"
+			}
+		}
+	case "net:wait-for-input":
+		if 0 < len(args) && args[0] == "el" {
+			return "waits on an empty socket list without a timeout, by contract forever"
+		}
 	case "gi:make-app":
 		if 3 <= len(args) {
 			return "generates and builds a Go application"
